@@ -447,4 +447,32 @@ theorem detSum_apply (m : Affine Rat) (s : Pt) (r : List Pt) :
       rw [ih]
       simp only [applyPt, apply, det]; ring
 
+/-- [T] `twice_signed_ring_area` of a closed ring (every ring of a `Polygon` is closed, C18) is
+multiplied by `det` under every affine map; the signed area therefore scales by `det` and flips
+sign under reflections and the axis swap. -/
+theorem ringArea_apply_closed (m : Affine Rat) (r : List Pt) (hc : r.head? = r.getLast?) :
+    twiceSignedRingArea (r.map m.applyPt) = m.det * twiceSignedRingArea r := by
+  unfold twiceSignedRingArea
+  have hc' : (r.map m.applyPt).head? = (r.map m.applyPt).getLast? := by
+    rw [List.head?_map, List.getLast?_map, hc]
+  simp only [List.length_map, hc, hc', ne_eq, not_true_eq_false, if_false]
+  split
+  · simp
+  · cases r with
+    | nil => simp
+    | cons s t => simp only [List.map_cons]; rw [← List.map_cons, detSum_apply]
+
+example : twiceSignedRingArea [⟨0, 0⟩, ⟨2, 0⟩, ⟨0, 2⟩, ⟨0, 0⟩] = 4 := by
+  simp [twiceSignedRingArea, detSum]; norm_num
+
+/-- [T] `affine_transform` maps the coordinates of the point / line types one by one (no
+constructor re-normalisation is involved for these types). -/
+theorem affineTransform_coords (m : Affine Rat) (p a b : Pt) (cs : List Pt) (ls : List (List Pt)) :
+    coordsIter (affineTransform m (.point p)) = [m.applyPt p] ∧
+    coordsIter (affineTransform m (.line a b)) = [m.applyPt a, m.applyPt b] ∧
+    coordsIter (affineTransform m (.lineString cs)) = cs.map m.applyPt ∧
+    coordsIter (affineTransform m (.multiPoint cs)) = cs.map m.applyPt ∧
+    coordsIter (affineTransform m (.multiLineString ls)) = ls.flatten.map m.applyPt := by
+  simp [affineTransform, mapCoords, coordsIter, List.map_flatten]
+
 end Geo.Proofs.C13
